@@ -1,6 +1,7 @@
 package main
 
 import (
+	"bytes"
 	"fmt"
 	"math/rand"
 	"os"
@@ -196,6 +197,52 @@ func readonlyEngine() {
 	if fileHash(path) != h0 {
 		// opening read-write may legitimately rewrite the freelist; take the new baseline
 		h0 = fileHash(path)
+	}
+
+	// ---- (a') a read-only Open asks the OS for no write access and never changes the file it is
+	// pointed at, whatever that file holds (empty, shorter than the meta pages, a database)
+	{
+		var flags []int
+		spy := func(name string, flag int, perm os.FileMode) (*os.File, error) {
+			flags = append(flags, flag)
+			return os.OpenFile(name, flag, perm)
+		}
+		if db, err := bolt.Open(path, 0o600, &bolt.Options{ReadOnly: true, Timeout: time.Second, OpenFile: spy}); err == nil {
+			_ = db.Close()
+		}
+		rep.Evaluations++
+		for _, f := range flags {
+			if f&(os.O_WRONLY|os.O_RDWR|os.O_CREATE|os.O_TRUNC|os.O_APPEND) != 0 {
+				rep.violation("C17", "monitor", "readonly-open-requests-write-access", fmt.Sprintf("Open with ReadOnly passes flags %#x to OpenFile (write access / creation requested)", f), nil)
+				break
+			}
+		}
+		for _, size := range []int{0, 1, 100, 4096, 8191} {
+			odd := filepath.Join(dir, fmt.Sprintf("odd-%d.db", size))
+			content := bytes.Repeat([]byte{0x5a}, size)
+			_ = os.WriteFile(odd, content, 0o600)
+			db, err := bolt.Open(odd, 0o600, &bolt.Options{ReadOnly: true, Timeout: time.Second})
+			if err == nil {
+				_ = db.Close()
+			}
+			after, _ := os.ReadFile(odd)
+			rep.Evaluations++
+			if !bytes.Equal(after, content) {
+				rep.violation("C17", "monitor", "readonly-open-changes-file", fmt.Sprintf("a read-only Open (err=%v) of a %d-byte file that is not a database changed it: now %d bytes", err, size, len(after)), map[string]any{"size": size})
+			}
+			if _, err := os.Stat(cliPath()); err == nil {
+				for _, c := range []string{"check", "stats", "buckets", "pages", "info"} {
+					_ = os.WriteFile(odd, content, 0o600)
+					_, _ = runCLI(c, odd)
+					after, _ := os.ReadFile(odd)
+					rep.Evaluations++
+					if !bytes.Equal(after, content) {
+						rep.violation("C17", "monitor", "cli-inspection-changes-file:"+c, fmt.Sprintf("`bbolt %s` on a %d-byte file that is not a database changed it: now %d bytes", c, size, len(after)), map[string]any{"command": []string{c}, "size": size})
+					}
+				}
+			}
+			_ = os.Remove(odd)
+		}
 	}
 
 	// ---- (b) read-only database: API programs and CLI inspection commands never change the file
